@@ -413,6 +413,34 @@ func c19Final(c *Ctx, f *ssa.Function) {
 
 func c19Stream(c *Ctx, f *ssa.Function) {
 	fn := fname(f)
+	// the padding check happens in Final: its error is the only sign of a bad final block, so it must be tested and
+	// returned — not discarded by calling Final in a defer or as a bare statement
+	for _, ci := range allCalls(f) {
+		if sc := ci.Common().StaticCallee(); sc != nil && sc.Name() == "Final" && inRepo(sc) {
+			if _, isDefer := ci.(*ssa.Defer); isDefer {
+				c.Violated("G-C19-final", fn, "the error of Final is returned", "Final is called in a defer: its error (bad padding in the last block) is discarded and the function reports success", ci.Pos())
+				continue
+			}
+			if call, isCall := ci.(*ssa.Call); isCall {
+				spec, _ := defaultResultSpec(f)
+				g := evalReject(c.P, f, errCheckAtoms(f, func(cl *ssa.Call) bool { return cl == call }, "Final error"), spec)
+				if !g.OK {
+					// Final's result returned directly is as good as a tested one
+					direct := false
+					for _, u := range *call.Referrers() {
+						if _, isRet := u.(*ssa.Return); isRet {
+							direct = true
+						}
+					}
+					if direct {
+						c.Holds("G-C19-final", fn, "the error of Final is returned", "returned directly", call.Pos())
+						continue
+					}
+				}
+				c.Check(g.OK, "G-C19-final", fn, "the error of Final is returned", g.Why, "a final block with invalid padding must make the function fail: "+g.Why, call.Pos())
+			}
+		}
+	}
 	var cb, rf *ssa.Call
 	for _, ci := range allCalls(f) {
 		call, ok := ci.(*ssa.Call)
